@@ -14,14 +14,15 @@ Generated (through `quick_tidal_dissipation`, which is a thin wrapper around cal
 Oracles (all element-wise for arrays)
   identity    heating == M_host (n dUdM - spin dUdO), |residual| <= 1e-10 * S, S = G M^2 R^5/a^6 *
               sum_modes |u K| (|(l-2p+q) n| + |m spin|) from the harness's own mode list (accounts for
-              cancellation).  Measured worst 3e-16 S.  Also tidal_torque == M_host dUdO (4 ulp).
+              cancellation).  Measured worst 9e-16 S.  Also tidal_torque == M_host dUdO (1e-12 relative).
   all_zero    e = 0, obliquity None or 0, synchronous => heating, dUdM, dUdw, dUdO are exactly 0 (obliquity None) or below
               1e-20 G M^2 R^5 n/a^6 max|Im k_l| (obliquity passed as 0.0: two l = 5 inclination expressions evaluate a vanishing
               bracket to 5e-17 at I = 0, F^2 ~ 1e-29; a mode that fails to cancel would give >= 1e-3 of that unit).
   closed_form synchronous, truncation 2, l_max 2, obliquity None or 0 =>
-              heating == (21/2)(-Im k2) G M^2 R^5 n e^2 / a^6 with the closed-form k2(n) and - when every frequency
-              signature is at |w| = n (spin_frequency=None, no obliquity argument), so that the returned per-degree
-              average is k2(n) - with the returned k2; 1e-10 relative (measured 4e-16).
+              heating == (21/2)(-Im k2) G M^2 R^5 n e^2 / a^6 with the closed-form k2(n) and - when every mode frequency
+              is |w| = n (spin_frequency=None, no obliquity argument), so that the returned per-degree value is k2(n)
+              however modes are grouped - with the returned k2 (its Im taken as is or x tidal_scale: whether the scale is
+              folded into the reported number is not part of the statement); 1e-10 relative (measured 4e-16).
   sign        passive rheology (Im J <= 0 at every mode frequency, evaluated by the harness; CPL: Q > 0; CTL: dt >= 0)
               and e inside the truncation's validity range - operationally |Hh_N - Hh_20| <= 0.1 Hh_20 where Hh_N, Hh_20 are
               the *harness* sums at the case's truncation and at e^20 - => heating >= -1e-12 * sum|mode terms|.
@@ -30,9 +31,12 @@ Oracles (all element-wise for arrays)
               coefficients, own closed-form Love number, rheology .py_func); heating, dUdM, dUdw, dUdO must agree to
               1e-10 * sum|mode terms| each (measured worst 2e-15).  A wrong coefficient / lost term moves them
               by >= 1e-3 of the scale.
-  ctl_default the package-default CTL parameters (TidalPy.defaultc tides.models.global_approx: static_k2, fixed_q,
-              fixed_dt), through quick_tidal_dissipation and through a `simple_tidal` world with use_ctl=True:
-              CTL is passive by construction, so heating >= 0 (known finding KF-C10-ctl-default-dt: it is not).
+  ctl_default the package-default CTL parameters (static_k2, fixed_q, fixed_dt of tides.models.global_approx, from
+              TidalPy.defaultc or TidalPy.config; clause discarded if neither layout exists) through quick_tidal_dissipation
+              and through a synchronous `simple_tidal` world with use_ctl=True (skipped with a label if the object API
+              cannot be driven).  CTL is passive by construction (a time lag), so inside the truncation's validity range
+              (harness sums for |fixed_dt|, same 10 % rule) heating >= -1e-12 * sum|mode terms|.
+              (Fixed finding KF-C10-ctl-default-dt, 2e2c7f6: the default fixed_dt was negative.)
 
 Non-trivial: non-synchronous, e > 0.01, >= 5 distinct non-zero mode frequencies.
 
@@ -42,16 +46,20 @@ Repository calls go through tides_common.call_repo, which repeats a call that di
 assertion* (`AssertionError: Sizes of ... do not match`): seen sporadically only in cold-cache multi-process runs, on
 equal-length inputs, never on replay - a numba runtime artefact, not an input property (label numba_transient_retry).
 
-Known findings (all in .py files, NOT repaired in /repo; proposed patches in out/proposed-fix-C10-*.diff)
-  KF-C10-zero-dissipation-q   collapse_modes raises ZeroDivisionError when no mode of a degree dissipates
-                              (rheology 'elastic' / 'off' with scalar viscosity & shear): effective-Q average
-                              divides by N - bad_qs = 0.  The property needs heating = 0 there.
-  KF-C10-newton-zero-frequency rheology 'newton' returns J = 0 for |w| <= eps; any state with a zero-frequency mode
-                              (3:2, 2:1, 1:2 ... resonance with e > 0, or spin == n passed as arrays) raises
-                              "complex division by zero" in complex_love_general.
-  KF-C10-ctl-default-dt       defaultc.py fixed_dt = -7.27e-08 (comment says (1/100)(2 pi/(86400*10))^-1 = +1375 s):
-                              the default CTL world has -Im k2 < 0 and reports negative tidal heating (-1.0e6 W
-                              for an Io-like world vs +3.3e14 W with CPL).
+Findings of this check
+  KF-C10-zero-dissipation-q   FIXED (35fe97c): collapse_modes raised ZeroDivisionError when no mode of a degree dissipates
+                              (rheology 'elastic' / 'off' with scalar viscosity & shear).  Any exception is now a failure
+                              again (only the Newton one below is matched by known_findings.json).
+  KF-C10-ctl-default-dt       FIXED (2e2c7f6): defaultc.py fixed_dt = -7.27e-08 made the default CTL world an energy source.
+  KF-C10-newton-zero-frequency KNOWN (not repairable: the suite pins J(0) = 0): rheology 'newton' returns J = 0 for
+                              |w| <= eps; any state with a zero-frequency mode (3:2, 2:1, 1:2 ... resonance with e > 0,
+                              spin == n passed as arrays, spin ~ 0) raises "complex division by zero" in
+                              complex_love_general.  Classified only when the rheology is newton, the harness enumeration
+                              has a zero-frequency mode, the message is a complex division and the innermost repository
+                              frame is the collapse_modes call.
+An unclassified exception is re-evaluated once in a fresh process (tides_common.second_opinion, label
+`reevaluated_in_fresh_process`) because of the sporadic numba artefact above; a deterministic exception reproduces there
+and is reported as a failure.
 
 Sensitivity (tools/mut.py, quick tier --cases 2000; all CAUGHT)
   mode_manipulation.py 'dUdO_term = uni_multiplier * m * mode_sign' -> '(m + 1)'      -> identity, grouping
@@ -61,8 +69,10 @@ Sensitivity (tools/mut.py, quick tier --cases 2000; all CAUGHT)
                        Love number)                                                       -> grouping
   mode_manipulation.py 'heating_term_new = heating_term_old + heating_term' -> '= heating_term' -> grouping, identity
   dissipation.py '(3. / 2.) * G * host_mass**2' -> '(3. / 2.) * G * host_mass' (first)    -> closed_form, grouping
+  fixes/revert-35fe97c.diff, fixes/revert-2e2c7f6.diff                                    -> exception, sign(ctl_default)
+  seeded/C10-1 (synchronous regrouping merges modes of different frequency), C10-2 (dUdO accumulates dUdw) -> grouping, identity
   (DESIGN's `n_sig = abs(n_coeff)` removal only changes how many signatures share a frequency, i.e. is an equivalent
-   mutant for everything C10 states; it is caught by C12's Love-number average instead.)
+   mutant; no check fires on it.)
 """
 import math
 
@@ -140,7 +150,7 @@ def fixed_cases(tier):
 def required_labels(tier):
     return ['spin:sync_none', 'spin:sync_explicit', 'spin:resonance', 'spin:retrograde', 'spin:generic', 'e:zero', 'e:pos',
             'obl:none', 'obl:zero', 'obl:on', 'scalar', 'array', 'clause:closed_form', 'clause:all_zero',
-            'clause:sign_checked', 'sign:outside_validity', 'kind:ctl_default', 'l_max:2', 'l_max:3'] + \
+            'clause:sign_checked', 'sign:outside_validity', 'kind:ctl_default', 'ctl_default:oop_checked', 'l_max:2', 'l_max:3'] + \
         ['rheo:' + r for r in tc.DISSIPATIVE + tc.NONDISSIPATIVE] + \
         (['trunc:%d' % t for t in tc.TRUNCS] if tc.shard_info() is None else [])
 
@@ -154,12 +164,29 @@ def _full(v, k):
 
 
 def _ctl_defaults():
-    """(static_k2, fixed_q, fixed_dt) of the package defaults: parsed from TidalPy.defaultc.default_config_str, the source
-    from which the per-user TidalPy_Configs.toml (what TidalPy.config holds) is written on first use."""
+    """(static_k2, fixed_q, fixed_dt) of the package-default global_approx tides: parsed from
+    TidalPy.defaultc.default_config_str (the source from which the per-user TidalPy_Configs.toml is written on first use),
+    else taken from TidalPy.config; None when neither layout is found (the clause is then discarded, not failed)."""
+    for getter in (_defaults_from_source, _defaults_from_config):
+        try:
+            cfg = getter()
+            vals = float(cfg['static_k2']), float(cfg['fixed_q']), float(cfg['fixed_dt'])
+            if all(math.isfinite(v) for v in vals) and vals[1] > 0.0 and vals[0] > 0.0:
+                return vals
+        except Exception:       # noqa - a layout change of the configuration is not a violation of C10
+            continue
+    return None
+
+
+def _defaults_from_source():
     import toml
     from TidalPy.defaultc import default_config_str
-    cfg = toml.loads(default_config_str)['tides']['models']['global_approx']
-    return float(cfg['static_k2']), float(cfg['fixed_q']), float(cfg['fixed_dt'])
+    return toml.loads(default_config_str)['tides']['models']['global_approx']
+
+
+def _defaults_from_config():
+    import TidalPy
+    return TidalPy.config['tides']['models']['global_approx']
 
 
 def evaluate(case):
@@ -173,8 +200,11 @@ def _evaluate(case):
     k = su.k
     ctl_default = case['kind'] == 'ctl_default'
     if ctl_default:
+        defaults = _ctl_defaults()
+        if defaults is None:
+            return discard('ctl_default_unavailable', ['kind:ctl_default'])
         b.rheology = 'ctl'
-        b.fixed_k2, b.fixed_q, b.fixed_dt = _ctl_defaults()
+        b.fixed_k2, b.fixed_q, b.fixed_dt = defaults
     ms = tc.mode_sum(su, b)
     lab = ['kind:' + case['kind'], 'rheo:' + b.rheology, 'l_max:%d' % su.l_max, 'trunc:%d' % su.trunc,
            'array' if su.as_array else 'scalar']
@@ -241,7 +271,7 @@ def _evaluate(case):
     tol = TOL * ms.s_identity
     c.check(bool(np.all(resid <= tol)), {'clause': 'identity', 'what': 'heating_vs_potential_derivatives'},
             '%s: heating=%r  M(n dUdM - spin dUdO)=%r  |residual|=%r  tol=%r' % (ctx, H, M * (n * dM - spin * dO), resid, tol))
-    c.check(bool(np.all(np.abs(tq - M * dO) <= 4 * tc.FLOAT_EPS * np.abs(tq))), {'clause': 'identity', 'what': 'tidal_torque'},
+    c.check(bool(np.all(np.abs(tq - M * dO) <= 1.0e-12 * np.abs(tq))), {'clause': 'identity', 'what': 'tidal_torque'},
             '%s: tidal_torque=%r M*dUdO=%r' % (ctx, tq, M * dO))
 
     # (2) circular, zero-obliquity, synchronous: everything vanishes exactly
@@ -260,15 +290,18 @@ def _evaluate(case):
     if sync and obl_zero and su.trunc == 2 and su.l_max == 2:
         c.label('clause:closed_form')
         kn, _, _ = tc.body_love(b, 2, n)
-        variants = [('closed-form k2(n)', -(kn * np.ones(k)).imag * b.tidal_scale)]
-        if b.sync and b.obl is None:
-            # every frequency signature of this configuration is at |w| = n, so the returned (averaged) k2 is k2(n)
+        unit = 10.5 * tc.G_SI * M * M * b.R ** 5 * n * su.e ** 2 / su.a ** 6
+        ref = unit * (-(kn * np.ones(k)).imag * b.tidal_scale)
+        c.check(bool(np.all(np.abs(H - ref) <= TOL * np.abs(ref))), {'clause': 'closed_form', 'k2': 'closed-form k2(n)'},
+                '%s: heating=%r  (21/2)(-Im k2) G M^2 R^5 n e^2/a^6=%r' % (ctx, H, ref))
+        if b.sync and b.obl is None and 2 in res['love_number_by_orderl']:
+            # every mode frequency of this configuration is |w| = n, so the returned per-degree k2 is k2(n) however modes
+            # are grouped; whether tidal_scale is folded into the returned Im k2 is not part of the statement: accept both
             k2 = np.asarray(res['love_number_by_orderl'][2], dtype=complex) * np.ones(k)
-            variants.append(('returned k2', -k2.imag))
-        for vname, neg_imk in variants:
-            ref = 10.5 * neg_imk * tc.G_SI * M * M * b.R ** 5 * n * su.e ** 2 / su.a ** 6
-            c.check(bool(np.all(np.abs(H - ref) <= TOL * np.abs(ref))), {'clause': 'closed_form', 'k2': vname},
-                    '%s: heating=%r  (21/2)(-Im k2) G M^2 R^5 n e^2/a^6=%r (%s: -Im k2=%r)' % (ctx, H, ref, vname, neg_imk))
+            r1, r2 = unit * (-k2.imag), unit * (-k2.imag) * b.tidal_scale
+            okk = (np.abs(H - r1) <= TOL * np.abs(r1)) | (np.abs(H - r2) <= TOL * np.abs(r2))
+            c.check(bool(np.all(okk)), {'clause': 'closed_form', 'k2': 'returned k2'},
+                    '%s: heating=%r  (21/2)(-Im k2_returned [x tidal_scale]) G M^2 R^5 n e^2/a^6=%r | %r' % (ctx, H, r1, r2))
 
     # (5) grouping invariance: ungrouped harness sum
     for name, got, ref, scale in (('heating', H, ms.heating, ms.s_heating), ('dUdM', dM, ms.dUdM, ms.s_dUdM),
@@ -279,7 +312,14 @@ def _evaluate(case):
 
     # (4) sign
     if ctl_default:
-        c.check(bool(np.all(H >= -SIGN_TOL * ms.s_heating)),
+        # CTL is passive by construction (a time LAG), so the package defaults must describe a passive body; the validity
+        # range of the truncation is judged with the harness sums for |fixed_dt| (the passive body the defaults stand for)
+        sgn = -1.0 if b.fixed_dt < 0.0 else 1.0
+        ms20 = ms if su.trunc == 20 else tc.mode_sum(su, b, trunc=20)
+        valid = np.abs(sgn * ms.heating - sgn * ms20.heating) <= 0.1 * sgn * ms20.heating
+        c.label('clause:sign_checked' if np.any(valid) else 'sign:outside_validity')
+        bad = valid & ~(H >= -SIGN_TOL * ms.s_heating)
+        c.check(not bool(np.any(bad)),
                 {'clause': 'sign', 'class': 'ctl_default_fixed_dt', 'path': 'quick_tidal_dissipation'},
                 '%s: default CTL parameters k2=%r Q=%r fixed_dt=%r give heating=%r' % (ctx, b.fixed_k2, b.fixed_q, b.fixed_dt, H))
         _oop_ctl_default(c, su, b)
@@ -302,26 +342,51 @@ _oop_cache = {}
 
 
 def _oop_ctl_default(c, su, b):
-    """The same default CTL parameters through the object API (simple_tidal world, global_approx tides, use_ctl)."""
-    from TidalPy.structures import build_world
-    from TidalPy.structures.orbit import PhysicsOrbit
-    with repo_call('build simple_tidal CTL world'):
+    """The same default CTL parameters through the object API (simple_tidal world, global_approx tides, use_ctl=True,
+    synchronous rotation, e <= 0.2, i.e. inside the validity range of the default e^6 truncation, which is verified with
+    the harness sums for the same world).  Anything that fails while building the world or reading its state is a layout
+    matter of the object API (C13's business), not a C10 violation: the clause is then skipped (label)."""
+    e_oop = float(min(max(su.e[0], 0.01), 0.2))
+    period = 1.0 + 20.0 * float(su.e[0])
+    R, m, Mh = 1.8e6, 8.9e22, 1.9e27
+    try:
+        from TidalPy.structures import build_world
+        from TidalPy.structures.orbit import PhysicsOrbit
         if 'host' not in _oop_cache:
-            _oop_cache['host'] = build_world('vhost', {'name': 'vhost', 'type': 'simple_tidal', 'radius': 7.0e7, 'mass': 1.9e27,
+            _oop_cache['host'] = build_world('vhost', {'name': 'vhost', 'type': 'simple_tidal', 'radius': 7.0e7, 'mass': Mh,
                                                        'tides_on': False, 'force_spin_sync': False})
         host = _oop_cache['host']
-        k2, q, dt0 = _ctl_defaults()
-        sat = build_world('vsat', {'name': 'vsat', 'type': 'simple_tidal', 'radius': 1.8e6, 'mass': 8.9e22, 'tides_on': True,
+        sat = build_world('vsat', {'name': 'vsat', 'type': 'simple_tidal', 'radius': R, 'mass': m, 'tides_on': True,
                                    'force_spin_sync': True,
-                                   'tides': {'model': 'global_approx', 'use_ctl': True, 'static_k2': k2, 'fixed_q': q,
-                                             'fixed_dt': dt0}})
+                                   'tides': {'model': 'global_approx', 'use_ctl': True, 'static_k2': b.fixed_k2,
+                                             'fixed_q': b.fixed_q, 'fixed_dt': b.fixed_dt}})
         orbit = PhysicsOrbit(star=None, tidal_host=host, tidal_bodies=sat, make_copies=False)
-        orbit.set_state(sat, orbital_period=1.0 + 20.0 * float(su.e[0]), eccentricity=float(max(su.e[0], 0.01)))
-        heat = sat.tides.tidal_heating_global
-        dt = sat.tides.fixed_dt
-    heat = np.asarray(heat, dtype=float)
-    c.check(bool(np.all(heat >= 0.0)), {'clause': 'sign', 'class': 'ctl_default_fixed_dt', 'path': 'GlobalApproxTides'},
-            'simple_tidal world, use_ctl=True, default config: fixed_dt=%r, tidal_heating_global=%r' % (dt, heat))
+        orbit.set_state(sat, orbital_period=period, eccentricity=e_oop)
+        heat = np.asarray(sat.tides.tidal_heating_global, dtype=float)
+        trunc = int(getattr(sat.tides, 'eccentricity_truncation_lvl', 6))
+        if heat.shape != () and heat.size != 1 or not np.all(np.isfinite(heat)):
+            raise ValueError('unexpected tidal_heating_global %r' % (heat,))
+    except Exception as ex:      # noqa
+        c.label('ctl_default:oop_unavailable')
+        return
+    # harness sums for the same world (|fixed_dt|): validity range + scale of the per-mode terms
+    n = 2.0 * math.pi / (period * 86400.0)
+    a = (tc.G_SI * (Mh + m) / n ** 2) ** (1.0 / 3.0)
+    ref = _base_case(trunc=trunc if trunc in tc.TRUNCS else 6, log_host_mass=math.log10(Mh),
+                     body={'rheology': 'ctl', 'log_R': math.log10(R), 'log_rho': math.log10(m / (4.0 / 3.0 * math.pi * R ** 3))},
+                     pt={'e': e_oop, 'log_a_over_R': math.log10(a / R)})
+    su2 = tc.Setup(ref, dual=False)
+    b2 = su2.bodies[0]
+    b2.rheology, b2.fixed_k2, b2.fixed_q, b2.fixed_dt = 'ctl', b.fixed_k2, b.fixed_q, abs(b.fixed_dt)
+    msN, ms20 = tc.mode_sum(su2, b2), tc.mode_sum(su2, b2, trunc=20)
+    if not bool(np.all(np.abs(msN.heating - ms20.heating) <= 0.1 * ms20.heating)):
+        c.label('sign:outside_validity')
+        return
+    c.label('ctl_default:oop_checked')
+    c.check(bool(np.all(heat >= -SIGN_TOL * msN.s_heating[0])),
+            {'clause': 'sign', 'class': 'ctl_default_fixed_dt', 'path': 'GlobalApproxTides'},
+            'simple_tidal world, use_ctl=True, default parameters k2=%r Q=%r fixed_dt=%r, P=%r d, e=%r: tidal_heating_global=%r '
+            '(harness sum of |terms| %r W)' % (b.fixed_k2, b.fixed_q, b.fixed_dt, period, e_oop, heat, msN.s_heating[0]))
 
 
 def warm():
